@@ -2,7 +2,7 @@
     start-gap adjustment, deletion of the blocks and gaps in between, cut at the end,
     end-gap adjustment, copy of small cut frames, gap limit, store. *)
 From Coq Require Import List ZArith Lia Bool Permutation.
-From V Require Import Gen.Params Lib.Hex FrameSorter.Model FrameSorter.InvCheck FrameSorter.ProofsBase
+From V Require Import Gen.Params Lib.Hex FrameSorter.Model FrameSorter.InvCheck FrameSorter.Spec FrameSorter.ProofsBase
   FrameSorter.ProofsLoops FrameSorter.ProofsFind FrameSorter.ProofsPop FrameSorter.ProofsInv
   FrameSorter.ProofsReinsert.
 Import ListNotations.
